@@ -202,7 +202,7 @@ func (b *Binding) MatchHeader(exchange string, headers *amqp.Table) bool {
 			continue
 		}
 
-		if value == val {
+		if reflect.DeepEqual(value, val) {
 			if matchType == MatchAny {
 				return true
 			}
